@@ -62,6 +62,17 @@ Theorem C32_merge_comm_at :
 Proof. exact (fun C lt dom H => merge_comm_at lt dom H). Qed.
 Print Assumptions C32_merge_comm_at.
 
+(** Commutativity exactly outside the finding's class: it suffices that, for the member, the
+    two entries do not tie on both counters, or carry the same access, or neither carries
+    conditions ([unambiguous]); the negation of [unambiguous] is what [known] matches. *)
+Theorem C32_merge_comm_outside_known :
+  forall (C : Type) (ccmp : C -> C -> option comparison) (s1 s2 : State C) (id : N),
+    wf s1 -> wf s2 ->
+    (forall m1 m2, lookup id s1 = Some m1 -> lookup id s2 = Some m2 -> unambiguous m1 m2) ->
+    lookup id (merge ccmp s1 s2) = lookup id (merge ccmp s2 s1).
+Proof. exact (fun C ccmp => merge_comm_outside_known ccmp). Qed.
+Print Assumptions C32_merge_comm_outside_known.
+
 (** The real [Access] order with conditions (even totally ordered ones, [u64]) is NOT such an
     order, and the real merge is then neither commutative nor associative: known finding
     [merge_noncommutative_with_conditions].  Outside the finding's class (no conditions at the
